@@ -246,6 +246,17 @@ def explore(ctx: runner.Ctx):
                 runner.guarded(ctx, lambda k: check_case(ctx, k),
                                {"t": c["t"], "datum": c["datum"], "ops": ["table"], "debug": dbg, "layouts": {}})
     ctx.mark_exhaustive(f"Literal table: {n_lit} (Literal, datum) pairs compared between strict and lax coercion")
+    # the list-layout table of C04 (mappings with integer keys, strings, bytes, one-shot iterators ... for a model loaded from a
+    # list, at the root and one level down): a mapping whose keys happen to be 0..n-1 is too rare a draw to leave to sampling
+    from props.c04_only_loaderror import list_layout_table_cases  # noqa: PLC0415
+    n_ll = 0
+    for i, c in enumerate(k for k in list_layout_table_cases() if k["strict"]):
+        n_ll += 1
+        if i % ctx.nshards == ctx.shard:
+            runner.guarded(ctx, lambda k: check_case(ctx, k),
+                           {"t": c["t"], "datum": c["datum"], "ops": ["table"], "debug": c["debug"], "layouts": c["layouts"],
+                            "variants": False})
+    ctx.mark_exhaustive(f"list-layout table: {n_ll} (list-layout model, root container, debug mode) triples under strict and lax")
     ctx.given(st_case(), lambda c: check_case(ctx, c), ctx.budget(8000, 400000))
 
 
